@@ -282,6 +282,44 @@ func (e *Engine) getSearchState() *SearchState {
 	return state
 }
 
+// The engine's own e.pikevm holds mutable thread queues, so it must not be run by
+// searches: two goroutines searching one Regex would share them. The helpers
+// below run the same search on the pooled per-search PikeVM instead (same NFA,
+// same longest-match mode, see getSearchState). e.pikevm remains the holder of
+// the engine-wide configuration (SetLongest) and serves compile-time queries.
+
+// pikevmSearch is PikeVM.Search on a pooled per-search instance.
+func (e *Engine) pikevmSearch(haystack []byte) (int, int, bool) {
+	state := e.getSearchState()
+	start, end, matched := state.pikevm.Search(haystack)
+	e.putSearchState(state)
+	return start, end, matched
+}
+
+// pikevmSearchAt is PikeVM.SearchAt on a pooled per-search instance.
+func (e *Engine) pikevmSearchAt(haystack []byte, at int) (int, int, bool) {
+	state := e.getSearchState()
+	start, end, matched := state.pikevm.SearchAt(haystack, at)
+	e.putSearchState(state)
+	return start, end, matched
+}
+
+// pikevmIsMatch is PikeVM.IsMatch on a pooled per-search instance.
+func (e *Engine) pikevmIsMatch(haystack []byte) bool {
+	state := e.getSearchState()
+	matched := state.pikevm.IsMatch(haystack)
+	e.putSearchState(state)
+	return matched
+}
+
+// pikevmSearchWithSlotTableAt is PikeVM.SearchWithSlotTableAt on a pooled per-search instance.
+func (e *Engine) pikevmSearchWithSlotTableAt(haystack []byte, at int, mode nfa.SearchMode) (int, int, bool) {
+	state := e.getSearchState()
+	start, end, matched := state.pikevm.SearchWithSlotTableAt(haystack, at, mode)
+	e.putSearchState(state)
+	return start, end, matched
+}
+
 // putSearchState returns a SearchState, trying the local cache first.
 // The local cache slot holds one state as a strong reference that survives GC.
 // Overflow goes to sync.Pool (may be collected by GC).
